@@ -42,7 +42,7 @@ func guard(c *mc.Ctx, entry string, n int, input func() string, fn func()) {
 	before := allocated()
 	defer func() {
 		if r := recover(); r != nil {
-			if _, rt := r.(runtime.Error); rt && strings.HasPrefix(entry, "bson->") && panicInBSONDriver(debug.Stack()) {
+			if _, rt := r.(runtime.Error); rt && (strings.HasPrefix(entry, "bson->") || strings.HasPrefix(entry, "bson-method(well-formed)->")) && panicInBSONDriver(debug.Stack()) {
 				// a run-time error (index / slice bounds) raised inside go.mongodb.org/mongo-driver while it reads the
 				// document; a deliberate panic of a driver accessor that orb called on the wrong element type is not this
 				c.Failf("panic-inside-bson-driver", "%s: the BSON driver panicked: %v | input %s", entry, r, input())
@@ -62,7 +62,7 @@ func guard(c *mc.Ctx, entry string, n int, input func() string, fn func()) {
 // goroutine belongs to the mongo driver (stack as printed by debug.Stack inside recover).
 func panicInBSONDriver(stack []byte) bool {
 	lines := strings.Split(string(stack), "\n")
-	seenPanic := false
+	seenPanic, first, machinery := false, "", false
 	for _, l := range lines {
 		if strings.HasPrefix(l, "panic(") {
 			seenPanic = true
@@ -71,9 +71,20 @@ func panicInBSONDriver(stack []byte) bool {
 		if !seenPanic || strings.HasPrefix(l, "\t") || strings.HasPrefix(l, "runtime.") {
 			continue
 		}
-		return strings.HasPrefix(l, "go.mongodb.org/mongo-driver/")
+		if first == "" {
+			first = l
+		}
+		// frames from the panic up to the first frame of orb: the recorded finding is about the driver's document
+		// reader / struct decoder, entered from orb with a document the driver itself validated; a panic in another
+		// driver function that orb calls with unchecked input (Validate, Lookup, ...) is orb's to prevent
+		if strings.HasPrefix(l, "github.com/paulmach/orb") {
+			break
+		}
+		if strings.Contains(l, "mongo-driver/bson/bsonrw.") || strings.Contains(l, "mongo-driver/bson/bsoncodec.") {
+			machinery = true
+		}
 	}
-	return false
+	return strings.HasPrefix(first, "go.mongodb.org/mongo-driver/") && machinery
 }
 
 func hx(b []byte) func() string {
@@ -289,7 +300,36 @@ func decodeBSON(c *mc.Ctx, bd []byte, in func() string) (ok bool) {
 	guard(c, "bson->FeatureCollection", len(bd), in, func() { bson.Unmarshal(bd, &geojson.FeatureCollection{}) })
 	guard(c, "bson->geojson.Polygon", len(bd), in, func() { var v geojson.Polygon; bson.Unmarshal(bd, &v) })
 	guard(c, "bson->geojson.Point", len(bd), in, func() { var v geojson.Point; bson.Unmarshal(bd, &v) })
+	// the unmarshalling methods called directly (the driver's own entry point rejects some inputs before it calls
+	// them). The recorded driver finding can excuse a panic here only for a document the driver's own validator
+	// accepts: handing the driver anything else is the caller's - orb's - doing.
+	m := "bson-method->"
+	if wellFormedBSON(bd) {
+		m = "bson-method(well-formed)->"
+	}
+	guard(c, m+"Geometry", len(bd), in, func() { (&geojson.Geometry{}).UnmarshalBSON(cp(bd)) })
+	guard(c, m+"Feature", len(bd), in, func() { (&geojson.Feature{}).UnmarshalBSON(cp(bd)) })
+	guard(c, m+"FeatureCollection", len(bd), in, func() { (&geojson.FeatureCollection{}).UnmarshalBSON(cp(bd)) })
+	guard(c, m+"geojson.Point", len(bd), in, func() { var v geojson.Point; v.UnmarshalBSON(cp(bd)) })
+	guard(c, m+"geojson.MultiPoint", len(bd), in, func() { var v geojson.MultiPoint; v.UnmarshalBSON(cp(bd)) })
+	guard(c, m+"geojson.LineString", len(bd), in, func() { var v geojson.LineString; v.UnmarshalBSON(cp(bd)) })
+	guard(c, m+"geojson.MultiLineString", len(bd), in, func() { var v geojson.MultiLineString; v.UnmarshalBSON(cp(bd)) })
+	guard(c, m+"geojson.Polygon", len(bd), in, func() { var v geojson.Polygon; v.UnmarshalBSON(cp(bd)) })
+	guard(c, m+"geojson.MultiPolygon", len(bd), in, func() { var v geojson.MultiPolygon; v.UnmarshalBSON(cp(bd)) })
 	return
+}
+
+// wellFormedBSON: the declared length is the length of the data and the driver's validator accepts the document.
+func wellFormedBSON(b []byte) (ok bool) {
+	if len(b) < 5 || int64(binary.LittleEndian.Uint32(b)) != int64(len(b)) {
+		return false
+	}
+	defer func() {
+		if recover() != nil {
+			ok = false
+		}
+	}()
+	return bson.Raw(b).Validate() == nil
 }
 
 // ---- seeds: valid encodings whose mutations are explored ----
@@ -878,6 +918,16 @@ func main() {
 			accepted(c, f.run(c, b))
 		})
 	}
+	// every short byte string handed to the BSON entry points, directly and through the driver
+	shortAlphabet := []byte{0x00, 0x01, 0x04, 0x05, 0x06, 0x10, 0x80, 0xff}
+	r.Explore("bson-short-inputs", "every byte string of at most 5 bytes over {00,01,04,05,06,10,80,ff} (every declared document length below, at and above the minimum, negative ones included) handed to the BSON unmarshalling methods directly and through bson.Unmarshal", mc.Opts{MaxDev: -1}, func(c *mc.Ctx) {
+		n := c.Choose(6)
+		b := make([]byte, n)
+		for i := range b {
+			b[i] = shortAlphabet[c.Choose(len(shortAlphabet))]
+		}
+		accepted(c, decodeBSON(c, b, hx(b)))
+	})
 	r.Sample(map[string]interface{}{"mvt": "1f", "wkb": "01 02000000 00000010 (line string claiming 2^28 points, no payload)", "wkt": "POLYGON((", "geojson": `{"type":"GeometryCollection","geometries":[null]}`})
 	r.Finish()
 }
